@@ -158,7 +158,8 @@ class RefEnum:
         return {
             "repr": self.repr,
             "shape": "gapless" if self.gapless else "holes",
-            "runs": min(len(self.runs), 9),
+            "runs": (str(len(self.runs)) if len(self.runs) <= 9 else "10-16" if len(self.runs) <= 16 else
+                     "17-64" if len(self.runs) <= 64 else "65+"),
             "touch_type_min": self.min == self.lo,
             "touch_type_max": self.max == self.hi,
             "neg_later_run": neg_later,
